@@ -8,8 +8,9 @@
     * K := NumR (ideal arithmetic): create_result is inverted by value/variance/error; the
       variance-weighted combination returns the summed counters (this part for every Num), the estimate
       sum(E_i/V_i)/sum(1/V_i), the variance 1/sum(1/V_i) and its square root as error, where the sums run
-      over [lives rs] = the results with a non-zero call (the others are skipped, only their counters are
-      added: C13_wwv_skips_empty); the estimate lies between every lower and every upper bound of the E_i,
+      over [lives rs] = the results with a finite call, finite_calls <> 0 (the others - in particular every
+      result without non-zero calls, since finite_calls <= non_zero_calls - are skipped, only their
+      counters are added: C13_wwv_skips_empty, C13_wwv_skips_no_nonzero); the estimate lies between every lower and every upper bound of the E_i,
       the variance/error is no larger than that of any participating result, and the whole result
       (the record, not only the value) is invariant under [Permutation].  Equal weighting of m >= 2 results
       returns the mean and sum (E_i - mean)^2 / (m (m-1)) as variance (standard error of the mean), m = 1
@@ -25,6 +26,10 @@
     variance > 0; [lives rs <> []] = at least one result participates; [calls_ok n] = 2 <= n < 2^64 for
     the total call counter (n - 1 neither 0 nor wrapped; the model's counters are unbounded naturals, the
     C++ size_t sum is the same number under this hypothesis).
+
+    The model mirrors mc_helper.hpp after the repair "variance-weighted combination ignores results without
+    any finite non-zero evaluation": the skip test reads finite_calls (the pinned code tested
+    non_zero_calls and divided by the zero variance of a result whose non-zero calls were all non-finite).
 
     NOT proved: anything about rounding (NumB) - order dependence in floating point is real and is
     reproduced bit for bit by the differential check instead; results with zero, negative, infinite or NaN
@@ -52,7 +57,7 @@ Theorem C13_wwv_counters : forall (K : Num) (rs : list (mcres K)),
 Proof. exact (@c13_wwv_counters). Qed.
 Print Assumptions C13_wwv_counters.
 
-(* E = sum(E_i/V_i) / sum(1/V_i), S^2 = 1 / sum(1/V_i), S = sqrt of it; sums over the results with a non-zero call *)
+(* E = sum(E_i/V_i) / sum(1/V_i), S^2 = 1 / sum(1/V_i), S = sqrt of it; sums over the results with a finite call *)
 Theorem C13_wwv_formula : forall rs : list (mcres NumR),
   pos_var rs -> lives rs <> [] -> calls_ok (sumNl r_calls rs) ->
   @value NumR (@weighted_with_variance NumR rs)
@@ -85,11 +90,11 @@ Theorem C13_wwv_perm : forall rs rs' : list (mcres NumR),
 Proof. exact c13_wwv_perm. Qed.
 Print Assumptions C13_wwv_perm.
 
-(* a result without non-zero call, anywhere in the list, changes only the counters handed to create_result *)
-Theorem C13_wwv_skips_empty : forall (rs1 : list (mcres NumR)) r0 rs2, r_nz r0 = 0%N ->
+(* a result without finite call, anywhere in the list, changes only the counters handed to create_result *)
+Theorem C13_wwv_skips_empty : forall (rs1 : list (mcres NumR)) r0 rs2, r_fin r0 = 0%N ->
   exists c nz f e s,
     @weighted_with_variance NumR (rs1 ++ rs2) = @mk_result NumR c nz f e s /\
-    @weighted_with_variance NumR (rs1 ++ r0 :: rs2) = @mk_result NumR (c + r_calls r0) nz (f + r_fin r0) e s /\
+    @weighted_with_variance NumR (rs1 ++ r0 :: rs2) = @mk_result NumR (c + r_calls r0) (nz + r_nz r0) f e s /\
     c = sumNl r_calls (rs1 ++ rs2) /\ nz = sumNl r_nz (rs1 ++ rs2) /\ f = sumNl r_fin (rs1 ++ rs2) /\
     ((1 <= c)%N -> @value NumR (@weighted_with_variance NumR (rs1 ++ r0 :: rs2))
                    = @value NumR (@weighted_with_variance NumR (rs1 ++ rs2))) /\
@@ -100,6 +105,16 @@ Theorem C13_wwv_skips_empty : forall (rs1 : list (mcres NumR)) r0 rs2, r_nz r0 =
          = @error NumR (@weighted_with_variance NumR (rs1 ++ rs2))).
 Proof. exact c13_wwv_skips_empty. Qed.
 Print Assumptions C13_wwv_skips_empty.
+
+(* in the words of the property: a result without non-zero calls only adds its call counter *)
+Theorem C13_wwv_skips_no_nonzero : forall (rs1 : list (mcres NumR)) r0 rs2,
+  r_nz r0 = 0%N -> (r_fin r0 <= r_nz r0)%N ->
+  exists c nz f e s,
+    @weighted_with_variance NumR (rs1 ++ rs2) = @mk_result NumR c nz f e s /\
+    @weighted_with_variance NumR (rs1 ++ r0 :: rs2) = @mk_result NumR (c + r_calls r0) nz f e s /\
+    c = sumNl r_calls (rs1 ++ rs2) /\ nz = sumNl r_nz (rs1 ++ rs2) /\ f = sumNl r_fin (rs1 ++ rs2).
+Proof. exact c13_wwv_skips_no_nonzero. Qed.
+Print Assumptions C13_wwv_skips_no_nonzero.
 
 (* equal weighting: mean and standard error of the mean (two equivalent forms of the variance) *)
 Theorem C13_weq_formula : forall rs : list (mcres NumR),
@@ -176,7 +191,7 @@ Theorem C13_dist_total : forall (K : Num) (acc : list (mcres K) -> mcres K) (rs 
 Proof. exact (@c13_dist_total). Qed.
 Print Assumptions C13_dist_total.
 
-(* non-vacuity: E = 1 +- 1 and E = 3 +- 1/2 with a call-less result in between *)
+(* non-vacuity: E = 1 +- 1 and E = 3 +- 1/2 with a result without finite calls in between *)
 Example C13_example_wwv :
   let rs := [ex_r1; ex_r0; ex_r2] in
   pos_var rs /\ lives rs <> [] /\ calls_ok (sumNl r_calls rs) /\
